@@ -383,8 +383,8 @@ class Ctx:
 
     def finish(self) -> int:
         wall = time.time() - self.t0
-        rdir = VERIF / "replays"
-        rdir.mkdir(exist_ok=True)
+        rdir = Path(os.environ.get("VERIF_REPLAY_DIR", str(VERIF / "replays")))
+        rdir.mkdir(parents=True, exist_ok=True)
         lines = []
         rc = 0
         if self.internal_errors:
@@ -443,8 +443,9 @@ class Ctx:
             "wall_s": round(wall, 2),
             "violations": len(lines),
         }
-        (VERIF / "evidence").mkdir(exist_ok=True)
-        (VERIF / "evidence" / f"{self.pid}.json").write_text(json.dumps(ev, indent=1, default=str) + "\n")
+        evdir = Path(os.environ.get("VERIF_EVIDENCE_DIR", str(VERIF / "evidence")))  # redirected for runs against seeded trees
+        evdir.mkdir(parents=True, exist_ok=True)
+        (evdir / f"{self.pid}.json").write_text(json.dumps(ev, indent=1, default=str) + "\n")
         status = "PASS" if rc == 0 else ("FAIL" if rc == 1 else "ERROR")
         print(f"{status} {self.pid} tier={self.tier} seed={self.seed} obligations={self.obligations} discharged={self.discharged} "
               f"evaluations={self.evaluations} nontrivial={len(self.nontrivial)} wall={wall:.1f}s")
